@@ -747,6 +747,11 @@ def eval_tree(e, env):
             (a * b if op == "*" else (int(a / b) if op == "/" and b != 0 else (int(a - b * int(a / b)) if op == "%" and b != 0 else _unk(t))))
     if k == "cond":
         return eval_tree(e["t"], env) if eval_tree(e["c"], env) else eval_tree(e["f"], env)
+    if k == "call" and callee_short(e) in ("min", "max") and len(e.get("args") or []) == 2 and e.get("recv") is None:
+        a, b = eval_tree(e["args"][0], env), eval_tree(e["args"][1], env)
+        return min(a, b) if callee_short(e) == "min" else max(a, b)
+    if k in ("construct", "cast") and len(e.get("args") or []) == 1:
+        return eval_tree(e["args"][0], env)
     raise Unknown(t)
 
 
